@@ -3,7 +3,7 @@ from common import COMMON_TB
 PROP = {
     "bin": "c03",
     "prop_file": "Properties/C03.v",
-    "model_files": ["Query/QuerySem.v", "Query/Compose.v", "Query/ComposeProofs.v", "Query/Phrase.v", "Query/PhraseProofs.v", "Query/MonoMap.v", "Query/Cases.v"],
+    "model_files": ["Query/QuerySem.v", "Query/Compose.v", "Query/ComposeProofs.v", "Query/Phrase.v", "Query/PhraseProofs.v", "Query/MonoMap.v", "Query/Exists.v", "Query/Cases.v"],
     "level": "proof",
     "engine": "E3-query",
     "level_text": "Proof: the specification `matches`/`eval` (structural recursion over the query tree: term, phrase with slop, phrase-prefix, range over the typed "
@@ -18,7 +18,10 @@ PROP = {
                   "Order-preserving encodings i64/f64(non-NaN)/bool/date -> u64 (HIGHEST_BIT regenerated): a<b <-> enc a < enc b and range over encoded = range over values (C03_range_encoding). "
                   "The one-clause shortcut of BooleanWeight::scorer() is pinned from the source (C03_SCORER_SINGLE_CLAUSE_CHECKS_MSM): under the current (fixed) shape the theorems hold for every tree "
                   "without exclusion (the proofs re-run on the regenerated flag); the old shape is characterised by C03_boolean_sound_old_shape + witness C03_single_clause_msm_refuted (F31, fixed). "
-                  "Known finding: F32 phrase with >= 3 terms and slop (witness C03_phrase_slop3_refuted). "
+                  "ExistsWeight::scorer over dynamic columns (JSON field with sub-paths; threshold and shape of the bitset loop regenerated from the source) is proved to contain exactly the documents "
+                  "holding a value in some column, for every number of columns and every cardinality mix (C03_exists_columns_sound, C03_exists_is_leaf). "
+                  "Known findings: F32 phrase with >= 3 terms and slop (witness C03_phrase_slop3_refuted); F33 buffered union reports the document of a child left dangling by a missed seek_danger "
+                  "(large sparse segments; classified on the Rust side). "
                   "Partial: phrases with >= 3 terms are proved only through the witness/classifier (slop 0 with >= 3 terms is tied, not proved); docset iteration (advance/seek of union/intersection) is C13; block-max WAND pruning is C06; the automata are oracles.",
     "level_note": "Trusted: Coq kernel + vm_compute; pin.py; the harness (corpus/query generators, mapping of DocAddress to unique ids through a fast field); "
                   "leaf scorers are modelled by their posting lists (the theorem is parametric in any leaf scorer meeting the contract); tokenisation is C19 "
@@ -27,7 +30,8 @@ PROP = {
     "rule": "a case is one (corpus split into segments with deletes/merge, query tree) pair observed through Count, Query::count, DocSetCollector (scoring off and on), "
             "TopDocs(limit >= num docs), (DocSetCollector, TopDocs) and FilterCollector; non-trivial = tree depth >= 2 with >= 2 occur kinds and >= 1 matching and >= 1 non-matching live "
             "document; every corpus also gets seek-driven phrase-prefix trees (one- and two-term phrase + prefix as Must/MustNot siblings of term clauses) and a focus corpus where the first term "
-            "sits in ~90% of the documents at varying positions; regression witnesses for F31, F131, F134; distinct by hash of the Gallina case term",
+            "sits in ~90% of the documents at varying positions; every corpus carries a JSON fast field (scalar, array and mixed-type sub-paths; < 4 and >= 4 columns) with exists queries and a per-segment tie of the columns read back; "
+            "two sparse corpora of 32k documents (rare terms in clusters more than 4096 doc ids apart, unions with nested conjunctions/phrases in both clause orders as Must/MustNot) checked against the Rust mirror of eval; regression witnesses for F31, F131, F134; distinct by hash of the Gallina case term",
     "trusted_base": COMMON_TB + ["fuzzy/regex/prefix acceptance is an oracle: the harness runs levenshtein_automata / tantivy_fst::Regex over the vocabulary and ships the accepted sets",
                                  "leaf scorers (postings, phrase scorer, range/term-set doc sets) are modelled by the set of documents they contain"],
     "assumptions": ["tokenisation and term encoding of text are outside this property (C19, C15)", "doc ids fit u32 (segments below 2^31 documents)"],
